@@ -125,3 +125,9 @@ PROPS['C11'] = dict(
     stages=[dict(name='demux', bin='udpdemux_race', shards=shards(4, 12), par=6, crash_is_violation=True, crash_key='demux:crash', timeout=1800, replay='rerun')],
     need_counters=['datagrams_read', 'connections', 'overflow_phases', 'refused_by_backlog', 'refused_by_filter', 'reconnect_cases', 'same_port_different_ip_pairs'],
 )
+
+PROPS['C01'] = dict(
+    level='exploration', builds={'vtrace_race': dict(pkg='./cmd/vtrace', overlay='shim', race=True)},
+    stages=[dict(name='trace', bin='vtrace_race', args=['-prop', 'C01'], shards=shards(8, 14), par=14, crash_is_violation=True, crash_key='vnet:crash', timeout=1800)],
+    need_counters=['hop_events', 'must_deliver', 'datagrams_received', 'napt_outbound', 'nat_inbound_must', 'must_drop_held', 'loopback_received', 'ended_unbound', 'nat_1to1_outbound'],
+)
